@@ -323,6 +323,12 @@ type Design struct {
 	// Features is the set of feature labels the generator used (for
 	// non-triviality and evidence histograms).
 	Features []string `json:"features,omitempty"`
+	// Style seeds the choice among equivalent spellings of the same design
+	// when it is lowered to DSL calls (Response(code, fn) or Response(fn) with
+	// Code inside, one Required call or several, path parameters left implicit
+	// or declared with Param before the query parameters, ...). 0 = the
+	// plainest spelling everywhere.
+	Style uint64 `json:"style,omitempty"`
 }
 
 // TypeByName returns the named user type.
